@@ -1,7 +1,8 @@
 import FlVerif.Gen.CodeFldReader
+import FlVerif.Gen.CodeFldWrite
 
-/-! # Tie A for the reader loop and the header of `FldExporter` (exporter.py): the functions translated from the
-    current source equal the models `Op.Fld.readerRows` / `readerLoop` / `keep` / `strip` / `header`
+/-! # Tie A for the reader loop, the header and `write` of `FldExporter` (exporter.py): the functions translated from the
+    current source equal the models `Op.Fld.readerRows` / `readerLoop` / `keep` / `strip` / `header` / `write`
 
 `write_from_reader` keeps the lines `Op.Fld.readerRows skip lines` (skipped lines, blank lines and `#` lines dropped,
 the others stripped) and turns each of them into a row of floats (`parseRow`: any function that may raise); the first
@@ -87,5 +88,43 @@ theorem code_header (inputs outputs : List String) (inputValues outputValues : B
     ∃ σ, FldExporter_header.run inputs outputs inputValues outputValues sep {} = .ok σ ∧
       σ.ret = some (sep.intercalate (header inputs outputs inputValues outputValues)) := by
   cases inputValues <;> cases outputValues <;> simp [FldExporter_header.run, header]
+
+/-! ## `FldExporter.write` -/
+
+section
+variable {E A : Type} [Inhabited E] [Inhabited A]
+
+/-- the loop that hands the columns to the input variables -/
+theorem code_setInputs (ops : WriteOps E A) (inputs outputs : List String) (inputValues outputValues headers : Bool)
+    (sep : String) (e0 : E) (iv0 : A) : ∀ (vs : List String) (i : Nat) (σ : FldExporter_write.S E A),
+    ∃ σ', FldExporter_write.loop1 ops inputs outputs inputValues outputValues headers sep e0 iv0
+        ((vs.zipIdx i).map (fun p => (p.2, p.1))) σ = .ok σ' ∧
+      σ'.engine = setInputs ops σ.input_values i vs σ.engine ∧ σ'.input_values = σ.input_values ∧ σ'.values = σ.values ∧
+      σ'.out = σ.out
+  | [], i, σ => ⟨σ, rfl, rfl, rfl, rfl, rfl⟩
+  | v :: vs, i, σ => by
+    simp only [List.zipIdx_cons, List.map_cons, FldExporter_write.loop1, setInputs]
+    exact code_setInputs ops inputs outputs inputValues outputValues headers sep e0 iv0 vs (i + 1) _
+
+/-- **`FldExporter.write` as translated from the source = the model `Op.Fld.write`**: `ValueError` when the rows have
+    fewer columns than there are input variables; otherwise the engine after restart, the assignment of the columns
+    in order and processing, and the arguments of `np.savetxt` (the selected blocks stacked; the header or `""`) -/
+theorem code_write (ops : WriteOps E A) (inputs outputs : List String) (inputValues outputValues headers : Bool)
+    (sep : String) (e0 : E) (iv0 : A) :
+    match write ops inputs outputs inputValues outputValues headers sep e0 iv0 with
+    | none => FldExporter_write.run ops inputs outputs inputValues outputValues headers sep e0 iv0 {} = .error .value
+    | some r => ∃ σ, FldExporter_write.run ops inputs outputs inputValues outputValues headers sep e0 iv0 {} = .ok σ ∧
+        σ.engine = r.1 ∧ σ.out = some r.2 := by
+  unfold write FldExporter_write.run
+  by_cases hc : ops.ncols (ops.atleast2d iv0) < inputs.length
+  · simp only [hc, decide_true, if_true]
+  · obtain ⟨σ', h1, h2, h3, h4, h5⟩ := code_setInputs ops inputs outputs inputValues outputValues headers sep e0 iv0 inputs 0
+      { input_values := ops.atleast2d iv0, engine := ops.restart e0 }
+    obtain ⟨σh, hh1, hh2⟩ := code_header inputs outputs inputValues outputValues sep
+    simp only [hc, decide_false, Bool.false_eq_true, if_false, Py.enumerate, h1, bind, Except.bind]
+    cases inputValues <;> cases outputValues <;> cases headers <;>
+      simp [writeBlocks, h2, hh1, hh2]
+
+end
 
 end Op.Fld
